@@ -13,6 +13,13 @@
        goes first; E = chosen queueing delay), echoed to its sender 10 ms later, and delivered to the other gateway 0..3
        times after chosen delays (loss = no copy; RF repeats = several copies; delay around the
        waits = long delays); optionally a third party's offer is heard by the respondent;
+     * the clock that stamps the packets handed to each gateway (Packet.dtm): the gateway's own
+       clock for a serial dongle, the remote device's for a transport such as MQTT/ramses_esp
+       ('ts').  Its offset from the gateway's clock (h.skew, ms, per gateway, constant during a
+       run) is an environment choice like the copies and delays of a frame - and NO action below
+       reads it: binding_fsm.py matches packets by verb/code/addresses only, its waits run on the
+       event loop's clock.  So the model predicts the same outcome for every skew, and
+       the premise of C20a (BindingContract!Undisturbed) does not mention it;
      * time is an integer (ms); a calendar holds deliveries, echoes and armed timers; when several
        entries are due at the same instant any order is explored; a coroutine whose future has
        been resolved is resumed (Wake) before anything later fires - in between, further entries
@@ -36,7 +43,8 @@ CONSTANTS Fix,            \* see above
           DeliveryChoices,\* set of tuples of delays (ms): the copies of one frame reaching the peer
           EchoChoices,    \* set of extra transmission delays E (ms)
           ThirdChoices,   \* set of times (ms) at which a third party's offer reaches R; -1 = never
-          Presence        \* set of <<R attempts, S attempts>> for the first round
+          Presence,       \* set of <<R attempts, S attempts>> for the first round
+          SkewChoices     \* set of <<at R's gateway, at S's gateway>>: packet-clock minus gateway-clock (ms)
 
 Devs == {"R", "S"}
 STATE_TIMER == 5100
@@ -66,7 +74,7 @@ Init == /\ now = 0 /\ cal = {} /\ seq = 1
         /\ co = [d \in Devs |-> CoInit]
         /\ round = 1 /\ first = [d \in Devs |-> CoInit] /\ bindingAfter = [d \in Devs |-> FALSE]
         /\ noise = 0
-        /\ h = [present |-> <<>>, third |-> -1, sends |-> <<>>]
+        /\ h = [present |-> <<>>, third |-> -1, sends |-> <<>>, skew |-> <<0, 0>>]
 
 \* ---- helpers ----------------------------------------------------------------------------------
 \* BindContext.set_state(cls): a new state object (new future; new timer for the timed classes)
@@ -135,11 +143,11 @@ StartS ==
             /\ NoteSend("S", "offer", ch[1], ch[2])
     /\ UNCHANGED <<now, round, first, bindingAfter, noise>>
 
-\* which devices attempt in round 1, and the third party's offer
+\* which devices attempt in round 1, the third party's offer, and the packet clocks of the two transports
 Choose ==
     /\ round = 1 /\ h.present = <<>> /\ now = 0
-    /\ \E p \in Presence, t \in ThirdChoices :
-          /\ h' = [h EXCEPT !.present = p, !.third = t]
+    /\ \E p \in Presence, t \in ThirdChoices, sk \in SkewChoices :
+          /\ h' = [h EXCEPT !.present = p, !.third = t, !.skew = sk]
           /\ cal' = IF t >= 0 THEN cal \cup {[at |-> t, k |-> "rx", d |-> "R", f |-> "toffer", id |-> 0]} ELSE cal
           /\ co' = [d \in Devs |-> IF (d = "R" /\ p[1]) \/ (d = "S" /\ p[2]) THEN co[d]
                                    ELSE [co[d] EXCEPT !.pc = "absent"]]
@@ -358,7 +366,14 @@ NotBindingAfterwards == round >= 2 => \A d \in Devs : ~bindingAfter[d]
 \* "... and a new attempt can start" (the undisturbed second attempt is not refused and succeeds)
 RetryWorks == round = 3 => \A d \in Devs : co[d].out = "ok"
 
+\* the packet clocks are part of the environment only: no action mentions h.skew except Choose, which records it,
+\* so whatever the model predicts for a schedule it predicts for that schedule under every skew (checks/c20.py
+\* verifies this on the enumerated predictions).  The real code is held to the same: executions that differ only
+\* in skew are judged by the same clauses (BindingTrace) against the same prediction.
+SkewIsEnvironment == h.skew \in SkewChoices \cup {<<0, 0>>}
+
 TypeOK == /\ \A e \in cal : e.at >= now
+          /\ SkewIsEnvironment
           /\ \A d \in Devs : ctx[d].fut \in {"pend", "res", "exc", "canc"}
 
 \* scenario + predicted outcome, for the harness (checks/c20.py)
